@@ -37,10 +37,10 @@ WORKSPACES = {
         "d.f90": "module bdm\n  use bcm\n  implicit none\n  type, extends(bct) :: bdt\n  end type bdt\ncontains\n  subroutine buse(v)\n    type(bdt) :: v\n    v%bbase = 1\n    call v%brun()\n  end subroutine buse\nend module bdm\n",
     },
     "WC_submodules": {
-        "m.f90": "module cm\n  implicit none\n  interface\n    module subroutine cs1(a)\n      integer :: a\n    end subroutine cs1\n    module function cf2(b) result(r)\n      real :: b, r\n    end function cf2\n  end interface\nend module cm\n",
+        "m.f90": "module cm\n  implicit none\n  interface\n    module subroutine cs1(a)\n      integer :: a\n    end subroutine cs1\n    module function cf2(b) result(r)\n      real :: b, r\n    end function cf2\n    module function cf3(x) result(res)\n      real :: x, res\n    end function cf3\n  end interface\nend module cm\n",
         # the direct submodule implements with the short form (its dummy arguments exist only in the
         # parent's interface), the sub-submodule with the full form
-        "s1.f90": "submodule (cm) csm1\n  implicit none\n  integer :: chidden\ncontains\n  module procedure cs1\n    a = chidden\n  end procedure cs1\nend submodule csm1\n",
+        "s1.f90": "submodule (cm) csm1\n  implicit none\n  integer :: chidden\ncontains\n  module procedure cs1\n    a = chidden\n  end procedure cs1\n  module procedure cf3\n    res = x\n  end procedure cf3\nend submodule csm1\n",
         "s2.f90": "submodule (cm:csm1) csm2\n  implicit none\ncontains\n  module function cf2(b) result(r)\n    real :: b, r\n    r = b + chidden\n  end function cf2\nend submodule csm2\n",
     },
     "WD_generic_include": {
